@@ -2,6 +2,7 @@
 //! op lines for the Lean model driver and the implementation's canonical answers, and
 //! evaluates each property directly on the implementation (failing-input search).
 mod c05;
+mod c05m7;
 mod c05x;
 mod c06;
 mod c06msg;
